@@ -1,10 +1,13 @@
 CONSTANTS
  MaxQ = 6
- Acls = {"allow","deny","both","open"}
+ Acls = {"allow","deny","both","open","stardeny"}
  CacheModes = {TRUE, FALSE}
  MaxEntries = 2
  FixFullText = TRUE
  DevCacheKeyTruncated = FALSE
+ DevKeyCut = "none"
+ DevStarSkipsDeny = FALSE
+ OnlyWide = FALSE
 INIT Init
 NEXT Next
 INVARIANTS EmitSched C37_ForwardedAuthorized
